@@ -180,6 +180,8 @@ pub struct Exec<'a> {
     pub refused_at_step: u32,
     /// concrete values of state-relative arguments (`*Rem` ops), by pc, so that a replayed scope body repeats the same requests
     pub rem_log: Vec<(usize, usize)>,
+    /// per-step observable effects for lock-step comparison of entry points (C17)
+    pub trace: Option<Vec<[u64; 5]>>,
 }
 
 macro_rules! viol {
@@ -211,6 +213,7 @@ impl<'a> Exec<'a> {
             steps_run: 0,
             refused_at_step: 0,
             rem_log: Vec::new(),
+            trace: None,
         }
     }
 
@@ -1486,6 +1489,22 @@ impl<'a> Exec<'a> {
     pub fn after_step(&mut self, arena: &dyn DynArena, op: Op) {
         let check = self.check_now();
         arena.d_stats(&mut self.st);
+        if self.trace.is_some() && !self.replaying {
+            let st = &self.st;
+            let mut e = [u64::MAX, 0, st.allocated as u64, ((st.count as u64) << 40) | st.remaining as u64, self.pc as u64];
+            if let Some(id) = self.model.last_returned {
+                if let Some(b) = self.model.blocks.iter().find(|b| b.id == id) {
+                    let ci = st.fwd.iter().position(|c| b.addr() >= c.chunk_start && b.addr() <= c.chunk_end);
+                    if let Some(ci) = ci {
+                        e[0] = ((ci as u64) << 40) | (b.addr() - st.fwd[ci].chunk_start) as u64;
+                    } else {
+                        e[0] = u64::MAX - 1;
+                    }
+                    e[1] = ((b.size as u64) << 8) | b.align.trailing_zeros() as u64;
+                }
+            }
+            self.trace.as_mut().unwrap().push(e);
+        }
         if check {
             self.check_state(arena, op);
         }
